@@ -10,6 +10,7 @@ from oqv.astutil import branch_context, call_name, method_call, bind_args
 from oqv.cfg import CFG
 from oqv.dataflow import DefUse, Def
 from oqv.forms import Poly, eval_form
+from oqv.pathcond import atomic_facts as _atomic_facts, fact_decider
 from oqv.model import AnalysisError, Program, Unit, dotted, norm, walk_local
 from oqv.report import Check
 
@@ -140,79 +141,24 @@ def _product_operands(e: ast.AST) -> Optional[List[ast.AST]]:
     return None
 
 
-def _atomic_facts(t: ast.AST, outcome: bool) -> List[Tuple[ast.AST, bool]]:
-    """Atomic conditions implied by test t having the given outcome."""
-    if isinstance(t, ast.UnaryOp) and isinstance(t.op, ast.Not):
-        return _atomic_facts(t.operand, not outcome)
-    if isinstance(t, ast.BoolOp):
-        if isinstance(t.op, ast.And) and outcome:
-            return [f for v in t.values for f in _atomic_facts(v, True)]
-        if isinstance(t.op, ast.Or) and not outcome:
-            return [f for v in t.values for f in _atomic_facts(v, False)]
-        return []
-    return [(t, outcome)]
-
-
-_ORDERINGS = {ast.Lt: {"lt"}, ast.LtE: {"lt", "eq"}, ast.Gt: {"gt"}, ast.GtE: {"gt", "eq"},
-              ast.Eq: {"eq"}, ast.NotEq: {"lt", "gt"}}
-
-
-def _orderings(e: ast.AST, a: str, b: str) -> Optional[Set[str]]:
-    """Set of orderings of (a, b) that satisfy comparison e, if e compares exactly a and b."""
-    if not (isinstance(e, ast.Compare) and len(e.ops) == 1 and type(e.ops[0]) in _ORDERINGS):
-        return None
-    l_, r_ = norm(e.left), norm(e.comparators[0])
-    sat = set(_ORDERINGS[type(e.ops[0])])
-    if (l_, r_) == (a, b):
-        return sat
-    if (l_, r_) == (b, a):
-        return {{"lt": "gt", "gt": "lt", "eq": "eq"}[x] for x in sat}
+def _copied_operand(e: ast.AST) -> Optional[ast.AST]:
+    """x for `x.copy()`, np.copy(x), np.array(x), np.asarray(x), copy(x), deepcopy(x)."""
+    if isinstance(e, ast.Call) and not e.keywords:
+        if isinstance(e.func, ast.Attribute) and e.func.attr == "copy" and not e.args:
+            return e.func.value
+        fn = (dotted(e.func) or "").split(".")[-1]
+        if fn in ("copy", "deepcopy", "array", "asarray") and len(e.args) == 1:
+            return e.args[0]
     return None
-
-
-def fact_decider(du: DefUse, facts: List[Tuple[ast.AST, bool]], at: int):
-    """Decide branch tests from conditions known to hold at node `at` (same normalised
-    expression, its negation, or an order comparison of the same two operands), as long as
-    every name in the condition still has the definitions it had at `at`."""
-    def same_versions(f: ast.AST, nid: int) -> bool:
-        for x in ast.walk(f):
-            if isinstance(x, ast.Name) and isinstance(x.ctx, ast.Load):
-                if {d.id for d in du.reaching(nid, x.id)} != {d.id for d in du.reaching(at, x.id)}:
-                    return False
-        return True
-
-    def decide(nid: int, e: ast.AST) -> Optional[bool]:
-        for (f, tv) in facts:
-            if not same_versions(f, nid):
-                continue
-            if norm(e) == norm(f):
-                return tv
-            if isinstance(f, ast.Compare) and len(f.ops) == 1 and isinstance(e, ast.Compare):
-                a, b = norm(f.left), norm(f.comparators[0])
-                if isinstance(f.ops[0], (ast.Is, ast.IsNot)) and len(e.ops) == 1 and \
-                        isinstance(e.ops[0], (ast.Is, ast.IsNot)) and \
-                        (norm(e.left), norm(e.comparators[0])) == (a, b):
-                    same = type(e.ops[0]) is type(f.ops[0])
-                    return tv if same else (not tv)
-                known = _orderings(f, a, b)
-                asked = _orderings(e, a, b)
-                if known is not None and asked is not None:
-                    possible = known if tv else ({"lt", "eq", "gt"} - known)
-                    if possible <= asked:
-                        return True
-                    if not (possible & asked):
-                        return False
-        return None
-    return decide
 
 
 def superop_roles(prog: Program, u: Unit, du: DefUse, nid: int, arg: ast.AST,
                   prop_names: Set[str], depth: int = 0):
     """Roles of the superoperator `arg` at node nid, one entry per way it can have been made:
     [(roles in order of application, defining node or None)], or None if some reaching
-    definition is neither a control, a propagator, None nor a product of such.  A product
-    `A @ B` applies B first."""
-    if depth > 4:
+    definition is neither a control, a propagator, None, a copy nor a product of such.  A
+    product `A @ B` applies B first."""
+    if depth > 6:
         return None
     ops = _product_operands(arg)
     if ops is not None:
@@ -223,32 +169,47 @@ def superop_roles(prog: Program, u: Unit, du: DefUse, nid: int, arg: ast.AST,
         return [(r_ + l_, None) for (l_, _) in left for (r_, _) in right]
     if isinstance(arg, ast.Constant) and arg.value is None:
         return [((), None)]
+    inner = _copied_operand(arg)
+    if inner is not None:
+        return superop_roles(prog, u, du, nid, inner, prop_names, depth + 1)
     if isinstance(arg, ast.Name):
         out = []
         for d in du.reaching(nid, arg.id):
-            if d.value is None:
+            sub = _roles_of_def(prog, u, du, nid, arg, d, prop_names, depth)
+            if sub is None:
                 return None
-            if _product_operands(d.value) is not None and not d.sel:
-                sub = superop_roles(prog, u, du, d.node, d.value, prop_names, depth + 1)
-                if sub is None:
-                    return None
-                out += [(roles, d.node) for (roles, _) in sub]
-                continue
-            if isinstance(d.value, ast.Constant) and d.value.value is None and not d.sel:
-                out.append(((), d.node))
-                continue
-            if isinstance(d.value, ast.Name) and not d.sel and d.node != nid:
-                sub = superop_roles(prog, u, du, d.node, d.value, prop_names, depth + 1)
-                if sub is None:
-                    return None
-                out += sub
-                continue
-            r = classify_superop_arg(prog, u, du, nid, arg, prop_names, only_def=d)
-            if r is None:
-                return None
-            out.append(((r,), None))
+            out += sub
         return out
     r = classify_superop_arg(prog, u, du, nid, arg, prop_names)
+    return None if r is None else [((r,), None)]
+
+
+def _roles_of_def(prog, u, du, nid, arg: ast.Name, d, prop_names, depth):
+    if d.value is None or depth > 6:
+        return None
+    if d.sel and d.sel[0] == ("aug", "MatMult"):
+        # x @= y: the object x had before, times y (y acts first)
+        prior = []
+        for pd in du.reaching(d.node, arg.id):
+            if pd.id == d.id:
+                continue
+            sub = _roles_of_def(prog, u, du, d.node, arg, pd, prop_names, depth + 1)
+            if sub is None:
+                return None
+            prior += [r for (r, _) in sub]
+        right = superop_roles(prog, u, du, d.node, d.value, prop_names, depth + 1)
+        if right is None or not prior:
+            return None
+        return [(r_ + l_, d.node) for l_ in prior for (r_, _) in right]
+    if not d.sel and (_product_operands(d.value) is not None):
+        sub = superop_roles(prog, u, du, d.node, d.value, prop_names, depth + 1)
+        return None if sub is None else [(roles, d.node) for (roles, _) in sub]
+    if not d.sel and isinstance(d.value, ast.Constant) and d.value.value is None:
+        return [((), d.node)]
+    if not d.sel and (isinstance(d.value, ast.Name) or _copied_operand(d.value) is not None) \
+            and d.node != nid:
+        return superop_roles(prog, u, du, d.node, d.value, prop_names, depth + 1)
+    r = classify_superop_arg(prog, u, du, nid, arg, prop_names, only_def=d)
     return None if r is None else [((r,), None)]
 
 
@@ -396,13 +357,14 @@ def _derives_from_caps(du: DefUse, nid: int, e: ast.AST, depth: int = 0) -> bool
 
 
 def check_stepper_order(chk: Check, u: Unit, g: CFG, events: Dict[int, str],
-                        rule: str = "O2", order: List[str] = ORDER) -> None:
+                        rule: str = "O2", order: List[str] = ORDER,
+                        also_present: Set[str] = frozenset()) -> None:
     no_back = lambda a, b, l: l != "loop"
     kinds = {}
     for nid, k in events.items():
         kinds.setdefault(k, []).append(nid)
     for k in order:
-        if k not in kinds:
+        if k not in kinds and k not in also_present:
             chk.add(rule, u, f"{k} event present", False,
                     f"the stepper never performs the {k} event")
     for j, later in enumerate(order):
@@ -529,7 +491,7 @@ def o2(prog: Program, chk: Check) -> None:
         if q.startswith("gradient"):
             # forward pass only: events before the first reversed() loop
             ev = _forward_only(du.cfg, ev)
-        check_stepper_order(chk, u, du.cfg, ev)
+        check_stepper_order(chk, u, du.cfg, ev, also_present={r for (_, r, _, _) in composite})
         _pre_before_final_record(chk, u, du, ev)
         _check_composite(chk, u, du, ev, composite)
     # PT-TEBD
@@ -939,6 +901,18 @@ def o5(prog: Program, chk: Check) -> None:
                  "rounded times with `step`"), None)
 
 
+def o6(prog: Program, chk: Check) -> None:
+    chk.rule("O6", "controls and propagators are combined without touching the objects they came "
+             "in: no in-place update (augmented assignment, subscript store, in-place method, "
+             "out=) of an array the stepping code does not own - the propagator closure of a "
+             "time-independent system hands out the same two arrays for every step, so a control "
+             "multiplied into one of them in place acts again in every later step", floor=10)
+    from rules.ownership import inplace_updates
+    inplace_updates(prog, chk, "O6", modules={"system_dynamics", "gradient", "pt_tebd", "control",
+                                               "backends.tempo_backend", "backends.pt_tempo_backend",
+                                               "backends.pt_tebd_backend", "system"}, floor=1)
+
+
 def run(prog: Program, chk: Check) -> None:
     chk.explanation = (
         "Decides the order clauses of C18: O1 composition order of stacked controls in Control "
@@ -956,3 +930,4 @@ def run(prog: Program, chk: Check) -> None:
     chk.call(o3b, prog, chk)
     chk.call(o4, prog, chk)
     chk.call(o5, prog, chk)
+    chk.call(o6, prog, chk)
